@@ -129,6 +129,18 @@ func canaryPath(dir string, run, id int) string {
 	return filepath.Join(dir, "blobs", "sha256", hex.EncodeToString(s[:]))
 }
 
+// spell returns the way this run writes the layout's directory in references: the clean path, or (every
+// fifth run) one consistent other spelling of the same directory - a trailing slash or a doubled separator.
+func (r *crun) spell(dir string) string {
+	switch r.I % 10 {
+	case 3:
+		return dir + "/"
+	case 8:
+		return filepath.Dir(dir) + "//" + filepath.Base(dir)
+	}
+	return dir
+}
+
 func runConcurrent(i int, verbose bool) {
 	rng := randFor(fmt.Sprintf("c08/conc/%d", i))
 	r := &crun{I: i, rng: rng, byRepo: map[string]*ccopy{}, verbose: verbose}
@@ -295,7 +307,7 @@ func runConcurrent(i int, verbose bool) {
 				r.mu.Unlock()
 				var err error
 				if r.NoGC {
-					err = putNodes(ctx, cl, func(s string) ref.Ref { return rcx.DirRef(dir, s) }, c.SG.G, c.Top, c.Tag, false, nil, false)
+					err = putNodes(ctx, cl, func(s string) ref.Ref { return rcx.DirRef(r.spell(dir), s) }, c.SG.G, c.Top, c.Tag, false, nil, false)
 				} else {
 					opts := []regclient.ImageOpts{regclient.ImageWithCallback(func(kind types.CallbackKind, instance string, state types.CallbackState, cur, total int64) {
 						if state == types.CallbackActive {
@@ -311,7 +323,7 @@ func runConcurrent(i int, verbose bool) {
 							opts = append(opts, regclient.ImageWithForceRecursive())
 						}
 					}
-					err = cl.RC().ImageCopy(ctx, rcx.Ref(c.Host, c.Repo, "v1"), rcx.DirRef(dir, c.Tag), opts...)
+					err = cl.RC().ImageCopy(ctx, rcx.Ref(c.Host, c.Repo, "v1"), rcx.DirRef(r.spell(dir), c.Tag), opts...)
 				}
 				r.mu.Lock()
 				c.active, c.err, c.ran = false, err, true
@@ -326,7 +338,7 @@ func runConcurrent(i int, verbose bool) {
 					}
 				}
 				r.mu.Unlock()
-				cerr := cl.Close(ctx, rcx.DirRef(dir, c.Tag))
+				cerr := cl.Close(ctx, rcx.DirRef(r.spell(dir), c.Tag))
 				r.mu.Lock()
 				en := r.tick(fmt.Sprintf("le%d", g))
 				rec := closeRec{G: g, Layout: c.Layout, Start: st, End: en}
@@ -367,7 +379,7 @@ func runConcurrent(i int, verbose bool) {
 					r.mu.Lock()
 					st := r.tick("is")
 					r.mu.Unlock()
-					cerr := cl.Close(ctx, rcx.DirRef(dir, ""))
+					cerr := cl.Close(ctx, rcx.DirRef(r.spell(dir), ""))
 					r.mu.Lock()
 					en := r.tick("ie")
 					rec := closeRec{G: -1, Layout: li, Start: st, End: en}
